@@ -575,7 +575,7 @@ impl Check for SmartAccount {
             };
             let exp = m.apply(s);
             if let Some(g) = got {
-                st.hit(if g { "tx.ok" } else { "tx.refused" });
+                st.tx("manage", g);
                 if g != exp {
                     return Err(violation(if g { "refine.must_fail" } else { "live.must_succeed" }, "manage", i, format!("{s:?}: real {g} model {exp}; rules {:?}", m.rules)));
                 }
